@@ -60,9 +60,9 @@ impl<'a> Job for AJob<'a> {
         if self.ch.chance("adaptive.fewq?", 2, 3) {
             let o = &case.options;
             let fo = o.to_fri_options();
-            let q = 1 + self.ch.index("adaptive.q", 6);
-            let rmaxs = [7usize, 15, 31, 63];
-            let mut r = rmaxs[self.ch.index("adaptive.rmax", 4)];
+            let q = 1 + self.ch.index("adaptive.q", 12);
+            let rmaxs = [7usize, 15, 31, 63, 127, 255];
+            let mut r = rmaxs[self.ch.index("adaptive.rmax", 6)];
             let mut f = fo.folding_factor();
             if !fri_well_formed(case.shape.len(), o.blowup_factor(), f, r) {
                 f = 2;
@@ -206,8 +206,37 @@ fn run<B: SimField, H: ElementHasher<BaseField = B> + Send + Sync + 'static, E: 
                     return;
                 },
             }
-            ctx.fault("A1_remainder_plus_vanishing_polynomial");
-            what = format!("FRI remainder ({} coefficients) replaced by remainder + c*V(x), V vanishing on the {} folded queried points", rem.len(), pos.len());
+            // A1b (one run in two): the remainder COMMITMENT is replaced as well, by the honest
+            // commitment to the substituted remainder - consistent with everything the verifier
+            // recomputes; it can only be refused because the query positions (and the last
+            // challenge) depend on that commitment
+            let mut both = false;
+            // A prover that cannot predict the positions is still accepted when all q fresh
+            // positions fold onto the k roots of V among the d points of the last layer:
+            // probability (k / d)^q, the protocol's soundness error. A1b is asserted only where
+            // that is below 2^-40 and counted otherwise.
+            let guess_bits = raw_positions.len() as f64 * ((d as f64) / (pos.len().max(1) as f64)).log2();
+            if ch.chance("A1.commitment_too?", 1, 2) {
+                let segs = 1 + case.shape.aux.is_some() as usize;
+                if let Ok((troots, croot, mut froots)) = proof.commitments.clone().parse::<H>(segs, layers) {
+                    if let Some(last) = froots.last_mut() {
+                        *last = H::hash_elements(&r2);
+                        if guess_bits >= 40.0 {
+                            p2.commitments = air::proof::Commitments::new::<H>(troots, croot, froots);
+                            both = true;
+                        } else {
+                            ctx.probe("A1b_not_asserted_positions_can_be_met_by_chance");
+                        }
+                    }
+                }
+            }
+            ctx.fault(if both { "A1b_remainder_and_its_commitment_replaced" } else { "A1_remainder_plus_vanishing_polynomial" });
+            what = format!(
+                "FRI remainder ({} coefficients) replaced by remainder + c*V(x), V vanishing on the {} folded queried points{}",
+                rem.len(),
+                pos.len(),
+                if both { "; remainder commitment replaced by the commitment to the new remainder" } else { "" }
+            );
         },
         1 => {
             // A2: constraint composition openings moved along the kernel of the DEEP combination
